@@ -1,5 +1,6 @@
 import Jp.Model.Glue
 import Jp.Model.Toml
+import Jp.Model.Iter
 import Jp.Spec.Tree
 /-
   jpdriver — the model behind the line protocol of /verif/PROTOCOL.md.
@@ -140,10 +141,10 @@ def newB (s : Bytes) : Bytes := (Token.new s).bytes
 
 /-- the accessor fields shared by `from_tokens` and `ptr_view` -/
 def accessorFields (text : Bytes) : String :=
-  let toks := tokens text
+  let toks := Tokens.collect text        -- the `Tokens` iterator state machine (= `tokens text`, C04.tokens_iter_eq)
   let n := count text
   let gets := (List.range (n + 2)).map fun i => optStr ((getToken text i).map fun t => xhex (decB t))
-  let comps := (components text).map fun
+  let comps := (Components.collect text).map fun
     | .root => "root"
     | .token t => xhex (decB t)
   s!"text={xhex text} toks={listStr (toks.map fun t => xhex (decB t))} encs={listStr (toks.map xhex)} " ++
